@@ -337,8 +337,8 @@ static void generate(bool thorough) {
   std::vector<int> cntR = {N_op(ex::COUNT, {}), cntT, N_op(ex::COUNT, {T, F}), N_op(ex::COUNT, {N_op(ex::NOT, {T})}),
                            N_op(ex::COUNT, {N_op(ex::LT, {v0, one}), T})};
   const int dN = numL[3], dL = F, dE = strL[2], dC = cntT;
-  std::vector<int> slot;   // depth-2 trees with exactly one non-leaf argument
-  auto ds = [&](int id) { size_t before = TREES.size(); int t = add_tree(id, "d2slot"); if (TREES.size() > before) { ++BND.d2slot; } slot.push_back(TREES[t]); };
+  // depth-2 trees with exactly one non-leaf argument
+  auto ds = [&](int id) { addall(id, "d2slot", BND.d2slot); };
   for (int k : kinds_of(C_UN)) for (int r : numR) ds(N_op(k, {r}));
   for (Cls c : {C_BIN, C_REL, C_ITER, C_PAIR}) for (int k : kinds_of(c)) for (int r : numR) { ds(N_op(k, {r, dN})); ds(N_op(k, {dN, r})); }
   for (int r : logR) ds(N_op(ex::IF, {r, dN, dN}));
@@ -843,12 +843,12 @@ int main(int argc, char** argv) {
     R.stats["trees_leaf"] = BND.leaves; R.stats["trees_depth1"] = BND.d1; R.stats["trees_pl"] = BND.pl;
     R.stats["trees_depth2_slot"] = BND.d2slot; R.stats["trees_depth2_product"] = BND.d2prod;
     R.stats["trees_mutated"] = BND.mutated; R.stats["trees_new_from_mutation"] = BND.mut_new;
-    long long unsup_trees = 0, maxnodes = 0; for (int id : TREES) unsup_trees += unsup(id);
+    long long unsup_trees = 0; for (int id : TREES) unsup_trees += unsup(id);
     R.stats["trees_with_kinds_without_comparator"] = unsup_trees;
     std::set<unsigned long long> hs; long long hashed = 0; for (long long i = 0; i < N; ++i) if (!HS[i]) { hs.insert(HV[i]); ++hashed; }
     R.stats["items_hashed"] = hashed; R.stats["distinct_hash_values"] = (long long)hs.size();
     std::set<int> canon; for (int id : TREES) canon.insert(CANON[id]);
-    R.stats["reference_equivalence_classes"] = (long long)canon.size(); (void)maxnodes;
+    R.stats["reference_equivalence_classes"] = (long long)canon.size();
     R.sample_cap = 12;
     const char* want[] = {"d1", "pl", "d2slot", "d2prod", "mut"};
     for (const char* w : want) {
